@@ -201,7 +201,7 @@ ATOM_VARS = {
     "v": ("Int", [{}, {"v": 5}, {"v": None}]),
     "s": ("Boolean = false", [{}, {"s": True}]),
     "t": ("Boolean!", [{"t": True}, {"t": False}]),
-    "i": ("In", [{}, {"i": {"q": [2]}}, {"i": None}]),
+    "i": ("In", [{}, {"i": {"q": [2]}}, {"i": None}, {"i": {"p": None, "r": None, "e": None, "n": {"q": None}}}]),
     "e": ("E = X", [{}, {"e": "Y"}]),
     "l": ("[Int]", [{}, {"l": 3}, {"l": [1, None]}]),
     "w": ("Int!", [{"w": 3}]),
